@@ -804,6 +804,20 @@ func deviceAttest01Validate(ctx context.Context, ch *Challenge, db DB, jwk *jose
 	if az.AccountID != ch.AccountID {
 		return NewError(ErrorUnauthorizedType, "authorization '%s' does not belong to the account that owns challenge '%s'", az.ID, ch.ID)
 	}
+	// ... and only in the authorization this challenge is a challenge of: the key
+	// attested for one identifier must not become the key of another order.
+	if len(az.Challenges) > 0 {
+		found := false
+		for _, c := range az.Challenges {
+			if c != nil && c.ID == ch.ID {
+				found = true
+				break
+			}
+		}
+		if !found {
+			return NewError(ErrorUnauthorizedType, "challenge '%s' is not a challenge of authorization '%s'", ch.ID, az.ID)
+		}
+	}
 
 	// Parse payload.
 	var p payloadType
